@@ -711,8 +711,8 @@ class Network:
         try:
             async with atimeout(timeout):
                 _, response = await future
-        except TimeoutError as exc:
-            future.set_exception(exc)
+        except TimeoutError:
+            future.cancel()
             raise
 
         return response
@@ -751,8 +751,8 @@ class Network:
         try:
             async with atimeout(timeout):
                 _, response = await future
-        except TimeoutError as exc:
-            future.set_exception(exc)
+        except TimeoutError:
+            future.cancel()
             raise
 
         return response
